@@ -112,6 +112,9 @@ def no_premature_return(repo, rep, fi, fw, dw):
 
 
 def run(repo, rep, tier):
+    rep.rule("R-C16-6", "(shared with C03) the NaN a centred window leaves at the grid edges is filled from the input on every path")
+    from .round7 import unconditional_boundary_fill
+    unconditional_boundary_fill(repo, rep, "R-C16-6")
     rep.rule("R-C16-5", "every parameter of the functions behind this property is read (smoothing): none is accepted and then ignored, and no control parameter (cutoff, limit, tolerance, window, count, switch) is replaced by another value before use (coercion and default filling aside)")
     from .shared import unused_parameters
     unused_parameters(repo, rep, "R-C16-5", ("wavespectra.core.utils.smooth_spec", "wavespectra.specarray.SpecArray.smooth", "wavespectra.partition.partition.Partition"), "smoothing")
